@@ -147,7 +147,12 @@ def check_property(pid, tier='quick', seed=0, replay_only=None):
         scan_res.append(sr)
         oid = 'scan/' + sname
         obligations[oid] = {'props': [pid], 'kind': 'scan', 'fn': sname, 'text': sr['what'] + ' -- expected: no site'}
-        if sr['sites']:
+        if sr['sites'] and SC.SCANS[sname].get('kind') == 'type_invariant':
+            # the FRAME of a type invariant is lost (a new creating / mutating function that no unit verifies, a field made
+            # visible): the invariant may still hold - that is for a contract on the new function to decide.  Never an alarm.
+            lost[oid] = 'frame of the type invariant lost'
+            undecided.append('scan %s: %s' % (sname, ' | '.join('%s:%d %s' % (x['file'], x['line'], x['text']) for x in sr['sites'])[:600]))
+        elif sr['sites']:
             failed[oid] = ['write site outside the owning module: %s:%d  %s' % (x['file'], x['line'], x['text']) for x in sr['sites']]
         if sr['files_scanned'] == 0:
             undecided.append('scan %s scanned zero files' % sname)
